@@ -28,6 +28,7 @@ import (
 	"fmt"
 	"os"
 	"strings"
+	"verif/harness/rdr"
 
 	"github.com/sqlc-dev/doubleclick/lexer"
 	"github.com/sqlc-dev/doubleclick/parser"
@@ -47,7 +48,7 @@ func runOne(src string) (status string, text string) {
 			status, text = "PANIC", ""
 		}
 	}()
-	stmts, err := parser.Parse(context.Background(), strings.NewReader(src))
+	stmts, err := parser.Parse(context.Background(), rdr.For(src))
 	if err != nil {
 		msg := err.Error()
 		if !strings.HasPrefix(msg, "parse errors: ") {
